@@ -12,7 +12,7 @@ META = {
     'assumptions': ['only times inside the format\'s field range are judged here (out-of-range times are C03\'s business)'],
     'floors': {'sequences_matched': 200, 'markers_checked': 1000, 'decompiled_sequences_matched': 150, 'formats': 4, 'label_kinds': 5},
 }
-SIZES = {'quick': 1200, 'thorough': 40000}
+SIZES = {'quick': 3600, 'thorough': 40000}
 FORMATS = [('anm', 'th12', 16), ('anm', 'th08', 16), ('msg', 'th08', 16), ('std', 'th12', 32), ('std', 'th07', 32), ('ecl', 'th07', 32), ('ecl', 'th06', 32), ('anm', 'th06', 16)]
 
 class Seq:
